@@ -53,10 +53,14 @@ impl util::SymbolManager<asm::Symbol>
                         if let Some(addr_start) = bankdef.addr_start.maybe_into::<usize>()
                         {
                             // Labels that lie before the PRG area (inside the
-                            // 16-byte header) have no PRG offset
+                            // 16-byte header) have no PRG offset; the distance
+                            // from the start of the bank is counted in the
+                            // bank's own address units
                             let Some(prg_offset) = addr
                                 .checked_sub(addr_start)
-                                .and_then(|o| o.checked_add(output_offset / 8))
+                                .and_then(|o| o.checked_mul(bankdef.addr_unit))
+                                .and_then(|o| o.checked_add(output_offset))
+                                .map(|o| o / 8)
                                 .and_then(|o| o.checked_sub(0x10))
                                 else { return };
 
